@@ -40,7 +40,8 @@ MiB = 1024 * 1024
 FINDING_OF = {"UncappedNonEmptyRepeat": "KF-C12-01", "ExtractAllIgnoresFilter": "KF-C12-02",
               "UnboundedVectorCount": "KF-C12-03", "UncappedSpaceCount": "KF-C12-04",
               "DenseGridFromSparseCells": "KF-C12-05", "XrefPrevLoop": "KF-C12-07"}
-# (KF-C12-06, 7z LZMA2 output limit, was repaired: proposed_fixes/c12-7z-lzma2-output-limit.diff)
+# (KF-C12-06, 7z LZMA2 output limit, and KF-C12-02, 7z extractall ignoring the member filter, were repaired:
+#  proposed_fixes/c12-7z-lzma2-output-limit.diff, c12-7z-extract-only-kept.diff; a finding that is not open absorbs nothing)
 # deviation -> the invariant its sensitivity run must violate
 SENSITIVITY = {"UncappedNonEmptyRepeat": "Inv_Bounded", "ExtractAllIgnoresFilter": "Inv_SkippedNeverDecompressed",
                "NoOutputLimit": "Inv_Bounded", "UnboundedVectorCount": "Inv_Bounded",
@@ -49,15 +50,19 @@ SENSITIVITY = {"UncappedNonEmptyRepeat": "Inv_Bounded", "ExtractAllIgnoresFilter
                "GuardAfterLoad": "Inv_NoLoadBeforeGuard", "DecompressBeforeCheck": "Inv_SkippedNeverDecompressed",
                "NoEmptyCap": "Inv_Bounded", "PlainXmlParser": "Inv_EntitiesNotExpanded",
                "GuardOnLinkSize": "Inv_Boundary", "FollowLinksUnchecked": "Inv_SkippedNeverDecompressed",
-               "ReadByNameLast": "Inv_SkippedNeverDecompressed"}
-INVS = ["Inv_NoLoadBeforeGuard", "Inv_Boundary", "Inv_SkippedNeverDecompressed", "Inv_MemberBoundary",
+               "ReadByNameLast": "Inv_SkippedNeverDecompressed",
+               "EmptyFileTakesSizeSlot": "Inv_SkippedNeverDecompressed", "ConfigureForgetsLimit": "Inv_ConfigMeaning",
+               "ImageScanNoProgress": "Inv_Bounded"}
+INVS = ["Inv_NoLoadBeforeGuard", "Inv_Boundary", "Inv_SkippedNeverDecompressed", "Inv_MemberBoundary", "Inv_ConfigMeaning",
         "Inv_Bounded", "Inv_EntitiesNotExpanded", "Inv_Progress"]
 MARKERS = {"laughs": ["hahaha"], "quadratic": ["qqqqqqqqqq"], "parameter": ["zzzzzzzzzz"], "external": []}
-MAX_HOSTILE = 256 * 1024      # encoded size of any hostile file (most are < 8 KiB; OLE fixtures up to 192 KiB)
+OTHER_OPTION_VALUES = {"buffer_size": 32768, "max_workers": 2, "enable_parallel": False, "enable_caching": False,
+                       "enable_streaming": False}
+MAX_HOSTILE = 400 * 1024      # encoded size of any hostile file (most are < 8 KiB; OLE fixtures up to 192 KiB)
 
 
 PART_A_DEVS = {"ExtractAllIgnoresFilter", "FlipCompare", "GuardAfterLoad", "DecompressBeforeCheck", "GuardOnLinkSize",
-               "FollowLinksUnchecked", "ReadByNameLast"}
+               "FollowLinksUnchecked", "ReadByNameLast", "EmptyFileTakesSizeSlot", "ConfigureForgetsLimit"}
 
 
 def _gen_cfg(devs, thorough, invs, parts=("a", "b")):
@@ -79,7 +84,7 @@ def _dump_states(path):
 def _key(s):
     """Identity of a scenario (hashable, JSON-able)."""
     return json.dumps({"k": s["k"], "kind": s["kind"], "max": s["max"], "size": s["size"], "via": s["via"], "lim": s["lim"],
-                       "lim2": s["lim2"],
+                       "lim2": s["lim2"], "calls": [[c["mm"], c["opt"]] for c in s["calls"]],
                        "members": [[m["size"], m["folder"], m["name"], m["type"], m["target"]] for m in s["members"]],
                        "c": s["c"], "mag": s["mag"], "pos": s["pos"]}, sort_keys=True)
 
@@ -87,6 +92,7 @@ def _key(s):
 def _hdr(s, skib=None, valid=False, lsize=None):
     return {"k": s["k"], "kind": s["kind"], "max": s["max"], "size": s["size"], "via": s["via"],
             "lsize": s["lsize"] if lsize is None else lsize, "lim": s["lim"], "lim2": s["lim2"],
+            "calls": [{"mm": c["mm"], "opt": c["opt"]} for c in s["calls"]],
             "members": [{"size": m["size"], "folder": m["folder"], "name": m["name"], "type": m["type"],
                          "target": m["target"]} for m in s["members"]],
             "c": s["c"], "mag": s["mag"], "pos": s["pos"], "skib": s["skib"] if skib is None else skib,
@@ -125,8 +131,9 @@ def _build_limit_scenarios(ctx, scns, wd: Path, rng):
                 out.append({"sidx": idx, "scn": "sevenz_size", "size": s["size"], "valid": valid,
                             "archive": base64.b64encode(base7z).decode()})
         elif s["k"] == "members":
-            mem = [{"size": m["size"], "name": m["name"], "type": m["type"], "target": m["target"]} for m in s["members"]]
-            sig = tuple((m["size"], m["name"], m["type"], m["target"]) for m in mem)
+            mem = [{"size": m["size"], "name": m["name"], "type": m["type"], "target": m["target"], "folder": m["folder"]}
+                   for m in s["members"]]
+            sig = tuple((m["size"], m["name"], m["type"], m["target"], m["folder"]) for m in mem)
             small = s["lim"] <= 65536
             if s["kind"] == "zip":
                 ext, ck = "zip", ("zip", sig)
@@ -142,10 +149,20 @@ def _build_limit_scenarios(ctx, scns, wd: Path, rng):
             cache[ck] = data
             f = wd / f"arch_{idx}.{ext}"
             f.write_bytes(data)
-            # the default limit is used unconfigured; any other limit goes through the public configuration call
-            configure = 0 if s["lim"] == 10 * MiB else s["lim"]
+            # the scenario's history of configure_archive_extraction(...) calls: an option that is "not mentioned"
+            # is either left out or passed as None
+            calls = []
+            for c in s["calls"]:
+                kw = {}
+                if c["mm"] > 0:
+                    kw["max_memory_size"] = c["mm"]
+                elif rng.random() < 0.5:
+                    kw["max_memory_size"] = None
+                if c["opt"]:
+                    kw[c["opt"]] = OTHER_OPTION_VALUES[c["opt"]]
+                calls.append(kw)
             out.append({"sidx": idx, "scn": "members", "kind": s["kind"], "ext": ext, "archive_file": str(f),
-                        "configure": configure,
+                        "calls": calls,
                         "members": [{"name": c12_archives.member_name(m), "size": m["size"]} for m in mem]})
         else:
             raise MachineryError(f"unknown scenario kind {s['k']}")
@@ -316,9 +333,8 @@ def run(ctx):
         evs = []
         for e in r["ev"]:
             evs.append(dict(e))                            # entries are identified by index in the worker
-        if s["k"] == "members" and w["configure"] and r.get("eff") != s["lim"]:
-            raise MachineryError(f"could not configure the per-member limit {s['lim']} (effective {r.get('eff')})")
-        # (unconfigured scenarios run with whatever default the code has; the trace decides)
+        # (the limit in force is not read from the module: the trace -- which members are decompressed and
+        #  extracted after the scenario's configuration calls -- decides)
         traces.append({"id": f"a:{r['id']}", "hdr": _hdr(s, valid=w.get("valid", False), lsize=w.get("lsize")), "ev": evs})
         meta.append({"part": "a", "key": skey, "gov": ref_final[skey]["gov"], "w": w, "raw": r})
     if consts_seen:
@@ -419,7 +435,8 @@ def _describe(s, t, m):
     if s["k"] == "members":
         ents = [f"#{i} n{x['name']} {x['type']}" + (f"->#{x['target']}" if x['type'] in ('hard', 'sym') else f" {x['size']}B")
                 for i, x in enumerate(s['members'], start=1)]
-        return (f"{m['w']['ext']} archive, per-member limit {s['lim']}, entries {ents}: events "
+        hist = "" if not m['w'].get('calls') else f" after configure_archive_extraction calls {m['w']['calls']}"
+        return (f"{m['w']['ext']} archive, per-member limit {s['lim']}{hist}, entries {ents}: events "
                 f"{[(e['a'], e.get('m', e.get('f', e.get('outcome')))) for e in t['ev']]}")
     e = t["ev"][0]
     return (f"amplifier {s['c']} magnitude {s['mag']} position {s['pos']}: file of {m['w']['len']} bytes "
@@ -438,11 +455,11 @@ def _corrupt_demo():
         thorough = False
     with Scratch("C12demo") as scratch:
         C.scratch = scratch
-        scn = lambda **kw: {"k": "", "kind": "", "max": 0, "size": 0, "via": 0, "lsize": 0, "lim": 0, "lim2": 0,
+        scn = lambda **kw: {"k": "", "kind": "", "max": 0, "size": 0, "via": 0, "lsize": 0, "lim": 0, "lim2": 0, "calls": (),
                             "members": (), "c": "", "mag": 0, "pos": "", "skib": 0, **kw}
         mem = lambda size, i: {"size": size, "folder": i, "name": i, "type": "reg", "target": 0}
         scns = [scn(k="read_file", max=4096, size=4096), scn(k="read_file", max=4096, size=4097),
-                scn(k="members", kind="zip", lim=4096, lim2=50 * MiB,
+                scn(k="members", kind="zip", lim=4096, lim2=50 * MiB, calls=({"mm": 4096, "opt": ""},),
                     members=(mem(4096, 1), mem(4097, 2)))]
         wd = scratch / "f"
         wd.mkdir()
